@@ -72,6 +72,13 @@ type edit struct {
 // Package rewrites the given files (absolute paths) of the package in dir.
 // It returns the new contents keyed by absolute path.
 func Package(dir string, files []string, opt Options, env []string) (map[string][]byte, Stats, error) {
+	return PackagePattern(dir, ".", files, opt, env)
+}
+
+// PackagePattern is Package for a package named by an import path (e.g. a
+// dependency in the module cache), loaded from dir's module. files may then be
+// base names.
+func PackagePattern(dir, pattern string, files []string, opt Options, env []string) (map[string][]byte, Stats, error) {
 	var st Stats
 	cfg := &packages.Config{
 		Dir:  dir,
@@ -79,7 +86,7 @@ func Package(dir string, files []string, opt Options, env []string) (map[string]
 		Env:  env,
 		Fset: token.NewFileSet(),
 	}
-	pkgs, err := packages.Load(cfg, ".")
+	pkgs, err := packages.Load(cfg, pattern)
 	if err != nil {
 		return nil, st, fmt.Errorf("load %s: %w", dir, err)
 	}
@@ -92,6 +99,13 @@ func Package(dir string, files []string, opt Options, env []string) (map[string]
 	}
 	want := map[string]bool{}
 	for _, f := range files {
+		if !filepath.IsAbs(f) {
+			for _, cf := range pkg.CompiledGoFiles {
+				if filepath.Base(cf) == f {
+					f = cf
+				}
+			}
+		}
 		want[filepath.Clean(f)] = true
 	}
 	out := map[string][]byte{}
